@@ -140,7 +140,7 @@ pub fn gen_string(t: &mut Tape, sw: &GdsSwarm) -> String {
                 }
                 let c = if sw.utf8 && t.chance(1, 6) {
                     *t.pick(&['é', 'ß', 'π', '日', '本', '€', '😀', '\u{a0}'])
-                } else if sw.nul && t.chance(1, 10) && n + 1 < len {
+                } else if sw.nul && t.chance(1, 10) && (n + 1 < len || len % 2 == 1) {
                     '\0'
                 } else {
                     (0x20 + t.draw(0x5f) as u8) as char
